@@ -22,7 +22,7 @@ THEOREMS = [
     'Pyiga.Props.C15.nonzero_support_kron', 'Pyiga.Props.C15.nonzero_dispatch',
     'Pyiga.Props.C15.transpose_nonzero', 'Pyiga.Props.C15.reindex_inverse',
     'Pyiga.Props.C15.reindex_from_reordered_two_level', 'Pyiga.Props.C15.raveled_cartesian_product_refines',
-    'Pyiga.Props.C15.row_spec', 'Pyiga.Props.C15.rows_spec',
+    'Pyiga.Props.C15.row_spec', 'Pyiga.Props.C15.rows_spec', 'Pyiga.Props.C15.kron_partial_spec',
 ]
 MODULES = ['Pyiga.Model.Index', 'Pyiga.Model.MLMatrix', 'Pyiga.Proofs.Index', 'Pyiga.Proofs.MLMatrix',
            'Pyiga.Proofs.MLMatrix2', 'Pyiga.Proofs.MLRows', 'Pyiga.Props.C15']
@@ -291,7 +291,7 @@ def run(ctx):
         # the model works on mesh indices of a common mesh only if meshes coincide; use kv2 := refined kv1 or same mesh
         if rng.integers(0, 2) == 0:
             kv2 = bspline.KnotVector(np.sort(np.concatenate((kv1.kv, kv1.mesh[1:-1][: int(rng.integers(0, 3))]))), kv1.p)
-            if np.max(np.unique(kv2.kv[1:-1], return_counts=True)[1]) > kv2.p + 1:
+            if len(kv2.kv) > 2 and np.max(np.unique(kv2.kv[1:-1], return_counts=True)[1]) > kv2.p + 1:
                 continue
         else:
             q = int(rng.integers(0, 5))
@@ -304,6 +304,38 @@ def run(ctx):
             fmt_pairs(b[:, 0].tolist(), b[:, 1].tolist()) if len(b) else '0', ('spars', kv1.kv.tolist(), kv1.p, kv2.kv.tolist(), kv2.p))
         kv_cases.append((kv1, kv2, b))
         ctx.count('kv-pairs')
+
+    # utils.kron_partial: selected rows of the full Kronecker product
+    import scipy.sparse
+    from pyiga import utils
+    nkp = 300 if ctx.tier == 'quick' else 4000
+    for _ in range(nkp):
+        L = int(rng.integers(1, 4))
+        As = []
+        for _k in range(L):
+            m, n = int(rng.integers(1, 4)), int(rng.integers(1, 4))
+            a = rng.integers(-3, 4, size=(m, n)) * (rng.random((m, n)) < 0.6)
+            if not a.any():
+                a[int(rng.integers(0, m)), int(rng.integers(0, n))] = 1
+            As.append(scipy.sparse.csr_matrix(a.astype(float)))
+        M = int(np.prod([A.shape[0] for A in As]))
+        k = int(rng.integers(0, M + 1))
+        rows = [int(r) for r in rng.permutation(M)[:k]]
+        restrict = bool(rng.integers(0, 2))
+
+        def enc(A):
+            c = A.tocoo()
+            t = sorted(zip(c.row.tolist(), c.col.tolist(), c.data.tolist()))
+            return '%d %d %s' % (A.shape[0], A.shape[1], plist(t, lambda e: '%d %d %d' % (e[0], e[1], int(e[2]))))
+
+        def f(As=As, rows=rows, restrict=restrict):
+            X = utils.kron_partial(As, rows, restrict=restrict).tocsr()
+            X.sum_duplicates(); X.eliminate_zeros()
+            c = X.tocoo()
+            return plist(sorted(zip(c.row.tolist(), c.col.tolist(), c.data.tolist())), lambda t: '%d,%d,%d' % (t[0], t[1], int(t[2])))
+        add('kronp %d %s %s' % (restrict, plist(As, enc), plist(rows)), f,
+            ('kronp', [A.toarray().astype(int).tolist() for A in As], rows, restrict))
+        ctx.count('kron_partial')
 
     got = ctx.model('drv_c15', req)
     ndis = 0
@@ -326,6 +358,16 @@ def run(ctx):
                     K = reduce(np.kron, A)
                     if set(zip(IJ[0].tolist(), IJ[1].tolist())) != set(zip(*[x.tolist() for x in np.nonzero(K)])):
                         found = 'ml_nonzero_nd positions differ from the support of numpy.kron'
+            if m[0] == 'kronp':
+                try:
+                    Ad = [np.array(a, dtype=float) for a in m[1]]
+                    K = reduce(np.kron, Ad)
+                    X = utils.kron_partial([scipy.sparse.csr_matrix(a) for a in Ad], m[2], restrict=m[3]).toarray()
+                    want = K[m[2], :] if m[3] else np.where(np.isin(np.arange(K.shape[0]), m[2])[:, None], K, 0)
+                    if X.shape != want.shape or not np.array_equal(X, want):
+                        found = 'kron_partial(rows=%s, restrict=%s) differs from the selected rows of numpy.kron' % (m[2], m[3])
+                except Exception as ex:
+                    found = 'kron_partial raised %s' % type(ex).__name__
             ctx.violation('ml-corr:' + m[0], 'model and implementation disagree on `%s`%s' % (m[0], (': ' + found) if found else ''),
                           {'request': r[:2000], 'implementation': e[:2000], 'model': g[:2000], 'oracle': found,
                            'stream': 'ml (drv_c15)', 'theorems': THEOREMS}, found is not None)
